@@ -215,7 +215,7 @@ func (d *evalDom) fieldSym(st *State, p avPtr, t types.Type) AV {
 	switch u := t.Underlying().(type) {
 	case *types.Slice:
 		o := d.e.NewObj(name, t)
-		v = avSlice{o, -1}
+		v = avSlice{o: o, n: -1}
 	case *types.Map:
 		o := d.e.NewObj(name, t)
 		v = avPtr{o, ""}
@@ -386,7 +386,7 @@ func (rr *evalRenderer) val(v AV) string {
 		if x.n >= 0 {
 			var parts []string
 			for i := 0; i < x.n; i++ {
-				e, _ := rr.st.load(avPtr{x.o, fmt.Sprintf("[%d]", i)})
+				e, _ := rr.st.load(avPtr{x.o, x.path + fmt.Sprintf("[%d]", i)})
 				parts = append(parts, rr.val(e))
 			}
 			return "[" + strings.Join(parts, ",") + "]"
